@@ -12,9 +12,10 @@ res=$out/confirm.log; : > $res
 ( cd $wt && cmake -G Ninja -B _build -S . -DCMAKE_BUILD_TYPE=Release >/dev/null 2>&1; cmake --build _build >/dev/null 2>&1
   bash demo/build_and_run.sh >/dev/null 2>&1; echo "demo_with_change_rc=$?" >> $res
   ctest --test-dir _build -j4 --timeout 900 2>&1 | grep "tests passed" >> $res
-  git stash -q; cmake --build _build >/dev/null 2>&1
+  # NOT git stash: the stash is shared between all worktrees of a repository
+  git apply -R $out/patch.diff; cmake --build _build >/dev/null 2>&1
   bash demo/build_and_run.sh >/dev/null 2>&1; echo "demo_without_change_rc=$?" >> $res
-  git stash pop -q; cmake --build _build >/dev/null 2>&1 )
+  git apply $out/patch.diff; cmake --build _build >/dev/null 2>&1 )
 cat $res
 # patched copy of the current /repo tree
 cp=$(mktemp -d /tmp/seedrepo-XXXX); cp -r /repo/src /repo/include $cp/
